@@ -127,6 +127,27 @@ static void unary8(int a, int b, LocalCount& lc)
             cmp8("leq", r, ISet{a, std::min(b, e)}, bs + ".leq(" + es + ")");
         }
         {
+            // == between results that reached their value by different routes (empty results included): equal iff the same set
+            R rs[6] = {base, base, base, base, base, R::make_empty()};
+            rs[0].gt(e8);
+            rs[1].geq(e8);
+            rs[2].lt(e8);
+            rs[3].leq(e8);
+            rs[4] &= e8;
+            const ISet es_[6] = {ISet{std::max(a, e + 1), b}, ISet{std::max(a, e), b}, ISet{a, std::min(b, e - 1)}, ISet{a, std::min(b, e)},
+                                 (a <= e && e <= b) ? ISet{e, e} : ISet{1, 0}, ISet{1, 0}};
+            lc.op("eq_results");
+            for (int i = 0; i < 6; ++i)
+                for (int j = 0; j < 6; ++j) {
+                    bool same = (es_[i].empty() && es_[j].empty()) || (!es_[i].empty() && !es_[j].empty() && es_[i].lo == es_[j].lo && es_[i].hi == es_[j].hi);
+                    if ((rs[i] == rs[j]) != same) {
+                        viol("eq_results:int8", bs + " narrowed by " + es + ": results " + std::to_string(i) + " and " + std::to_string(j) + " compare " +
+                                                    ((rs[i] == rs[j]) ? "equal" : "different"));
+                        i = j = 6;
+                    }
+                }
+        }
+        {
             lc.op("contains");
             bool exp = a <= e && e <= b;
             if (base.contains(e8) != exp || (base && e8) != exp)
@@ -202,6 +223,12 @@ static void binary8(int a, int b, int c, int d, bool brute_mult, LocalCount& lc)
         r.intersect(y);
         if (!same8(r, e) || !same8(x.intersection(y), e))
             viol("intersect:int8", ex());
+        if (e.empty()) {
+            R viaLeq = x;
+            viaLeq.leq((int8_t)(a > -128 ? a - 1 : -128));
+            if (a > -128 && (!((x & y) == viaLeq) || !((x & y) == R::make_empty()) || !(viaLeq == (x & y))))
+                viol("inter:int8:empty-results-differ", ex());
+        }
         // membership in the result by the library's own predicate (an empty result has no members)
         for (int p : {a, b, c, d, std::max(a, c), std::min(b, d), 0, -128, 127}) {
             bool in = !e.empty() && e.lo <= p && p <= e.hi;
